@@ -42,8 +42,17 @@ def gen_cases(rng, tier, shard):
     mine = [b for k, b in enumerate(batches) if k % n == i] + [astral[b:b + 200] for b in range(0, len(astral), 200)]
     for b in mine:
         cases.append({'cps': b, 'encoding': 'utf-8', 'ngram': rng.choice([2, 3]), 'coverage': 0.6})
-    for enc in ['latin-1', 'cp1252', 'cp1251', 'iso-8859-7', 'cp437', 'koi8-r']:
-        cases.append({'cps': list(SPECIAL) + list(range(0x80, 0x100)) + [rng.randrange(0x100, 0x500) for _ in range(100)], 'encoding': enc, 'ngram': 2, 'coverage': 0.6})
+    for k, enc in enumerate(['latin-1', 'cp1252', 'cp1251', 'iso-8859-7', 'cp437', 'koi8-r', 'iso-8859-15', 'cp1250']):
+        if k % n != i:
+            continue
+        every = []
+        for b in range(0x20, 0x100):          # every character the single-byte encoding can represent
+            try:
+                every.append(ord(bytes([b]).decode(enc)))
+            except UnicodeDecodeError:
+                pass
+        for part in (every[:120], every[120:]):
+            cases.append({'cps': list(SPECIAL) + part, 'encoding': enc, 'ngram': 2, 'coverage': 0.6})
     return cases
 
 def flat(section):
